@@ -112,6 +112,10 @@ var tableNames = [][]string{
 	{"t", "ns:t"},
 	{"a.b", "a", "a-b"},
 	{"tab", "ta", "tabl"},
+	// a namespaced table and tables of the default namespace with the same
+	// shape, the separator replaced by a legal name byte that sorts after ':'
+	{"ns:t", "ns_t"},
+	{"a:b", "a_b", "aab"},
 }
 
 // LayoutOpts bounds a generated layout.
